@@ -112,8 +112,9 @@ theorems below are composition corollaries of `C03_walk`, `C04_items`, `C04_last
 verdict / category theorems above, about the *tree*.  `Spec/LintE2E.lean` holds the tree-level
 clauses.  Hypotheses, all named:
 * `noRefInTable`, `plainNames` — as for `C01_verdict_partial` (table obligation; ambiguous names);
-* `NoEmptyNotice` — no attributed copyright line is the empty string (only `SPDX-FileCopyrightText = ""`
-  in a REUSE.toml produces one; `noEmptyNoticeB` on the model's output implies it, `C01_e2e_hyp`);
+* (no hypothesis about blank copyright strings any more: since fix 64fab59 a blank line is no notice
+  for the report, and `Spec.HasNotice` asks for a non-blank attributed line; `NoEmptyNotice` /
+  `C01_e2e_hyp` are kept for reference only);
 * `wfEntries` — the names within one directory are distinct (for the two look-up statements only).
 Oracles (parameters of `E2ECfg`): the VCS, `is_binary`, tomlkit / python-debian (parsed REUSE.toml,
 dep5), license-expression (`parses`, `keysOf`). -/
@@ -124,21 +125,21 @@ variable {c : E2ECfg} {g : GlobalLic} {tree : ETree} {files : List EFile}
 /-- The verdict of the composed model is clauses (a)–(d) read on the tree: covered files are those
     of C03, what is attributed to them is what C04's rules say for the chain of REUSE.toml tables
     found on their ancestor directories and their own source, licence texts are the files below
-    LICENSES/.  Full statement (without `plainNames`, `NoEmptyNotice`): false for the recorded
-    ambiguous LICENSES/ names and for two-or-more empty copyright strings. -/
+    LICENSES/.  Full statement (without `plainNames`): false for the recorded ambiguous
+    LICENSES/ names. -/
 theorem C01_e2e_verdict_partial (ht : noRefInTable tbl = true) (hg : globalOf c tree = some g)
-    (hp : plainNames tbl (licFilesOf tree) = true) (hne : NoEmptyNotice c g tree)
+    (hp : plainNames tbl (licFilesOf tree) = true)
     (h : lintE2E tbl c tree = .ok files r) : r.isCompliant = true ↔ TreeCompliant tbl c g tree := by
   obtain ⟨g', hg', hgen, _⟩ := lintE2E_ok h
   rw [hg] at hg'; cases hg'
   rw [C01_verdict_partial ht hp hgen]
-  exact compliant_iff_tree hne
+  exact compliant_iff_tree
 
 /-- exit status 0 exactly when the tree is compliant -/
 theorem C01_e2e_exit_partial (ht : noRefInTable tbl = true) (hg : globalOf c tree = some g)
-    (hp : plainNames tbl (licFilesOf tree) = true) (hne : NoEmptyNotice c g tree)
+    (hp : plainNames tbl (licFilesOf tree) = true)
     (h : lintE2E tbl c tree = .ok files r) : r.exit = 0 ↔ TreeCompliant tbl c g tree := by
-  rw [(C01_exit r).1]; exact C01_e2e_verdict_partial ht hg hp hne h
+  rw [(C01_exit r).1]; exact C01_e2e_verdict_partial ht hg hp h
 
 /-- The files the composed model reports on are exactly the covered files of the tree in the flat
     reading `Spec.Covered`: regular, non-empty files no file rule excludes, below real directories no
@@ -194,7 +195,7 @@ theorem C01_e2e_read_errors (hg : globalOf c tree = some g) (h : lintE2E tbl c t
     | true => exact absurd ((readable_iff p).mp hh) hr
 
 /-- named under "no copyright": exactly the readable covered files without a notice -/
-theorem C01_e2e_no_copyright_partial (hg : globalOf c tree = some g) (hne : NoEmptyNotice c g tree)
+theorem C01_e2e_no_copyright (hg : globalOf c tree = some g)
     (h : lintE2E tbl c tree = .ok files r) (q : Text) :
     q ∈ r.noCopyright ↔ ∃ p, CoveredT c tree p ∧ ReadableT c g tree p ∧ ¬ HasNotice c g tree p ∧ q = relText p := by
   obtain ⟨g', hg', hgen, _⟩ := lintE2E_ok h
@@ -203,12 +204,12 @@ theorem C01_e2e_no_copyright_partial (hg : globalOf c tree = some g) (hne : NoEm
   constructor
   · rintro ⟨f, hf, hr, hc, rfl⟩
     obtain ⟨p, hp, rfl⟩ := mem_projectFiles.mp hf
-    exact ⟨p, hp, (readable_iff p).mp hr, (fun hh => by rw [(hasCopyright_iff hne hp).mpr hh] at hc; cases hc), rfl⟩
+    exact ⟨p, hp, (readable_iff p).mp hr, (fun hh => by rw [(hasCopyright_iff' (p := p)).mpr hh] at hc; cases hc), rfl⟩
   · rintro ⟨p, hp, hr, hc, rfl⟩
     refine ⟨_, mem_projectFiles.mpr ⟨p, hp, rfl⟩, (readable_iff p).mpr hr, ?_, rfl⟩
     cases hh : ((fileOf c g tree p).toCov c).hasCopyright with
     | false => rfl
-    | true => exact absurd ((hasCopyright_iff hne hp).mp hh) hc
+    | true => exact absurd ((hasCopyright_iff' (p := p)).mp hh) hc
 
 /-- named under "no licence": exactly the readable covered files without an expression that mentions an identifier -/
 theorem C01_e2e_no_licence (hg : globalOf c tree = some g) (h : lintE2E tbl c tree = .ok files r) (q : Text) :
